@@ -7,9 +7,6 @@ From PV Require Import Spec.Cfg Model.Table Spec.NLR Validators.TableComplete Pr
 Import ListNotations.
 Local Open Scope N_scope.
 
-Definition det_table (tb : table) : bool :=
-  forallb (fun st => forallb (fun ya => Nat.leb (length (snd ya)) 1) (st_actions st)) tb.
-
 Lemma assoc_In2 {V} k (l : list (N * V)) v : assoc k l = Some v -> In (k, v) l.
 Proof.
   induction l as [|[k' v'] r IH]; cbn; [discriminate|].
